@@ -466,7 +466,7 @@ def cases(tier, seed):
     add('case_kfl_vs_lattice', ls=2, dims=4, units=1, terms=2, required=False)
     add('case_pwl_fn', nk=5, units=2, mono='increasing', per_unit_input=True, required=False, timeout=600)
     add('case_rtl', num=4, rank=3, n_unc=2, n_inc=3, seed=seed, required=False)
-    add('case_kfl_vs_lattice', ls=3, dims=3, units=2, terms=2, required=False)
+    add('case_kfl_vs_lattice', ls=3, dims=3, units=1, terms=1, required=False, cap=1500)
     add('case_pwl_fn', nk=5, units=1, mono='none', cyclic=True, required=False, timeout=600)
     add('case_pwl_fn', nk=4, units=3, mono='increasing', missing_input=0.0, omin=-1.0, omax=0.0, per_unit_input=True, required=False, timeout=600)
     add('case_cdf_fn', dim=6, nk=2, units=3, activation='sigmoid', reduction='none', sparsity=3, required=False)
